@@ -10,7 +10,7 @@ RULE = ("a real Worker in virtual time on the in-memory broker: 1-6 jobs (durati
         "the stop signal delivered at exactly iteration k (every busy iteration in the thorough tier, a stratified sample in the "
         "quick tier; with graceful 0 the forced cancellation follows at once), and with messages_limit as the stop cause; after "
         "run() has returned and the loop is idle: where is every message, with which parameters, which terminal calls were made")
-TRUSTED = ["in-memory broker only: process death and Redis' recovery of in-flight messages are not exercised in this revision",
+TRUSTED = ["shutdown: in-memory broker; process death: Redis client over the fake server in sequential histories (a dead worker = one that never disposes of what it took; no process is killed)",
            "signal = the handler the worker registered with the loop, called at the chosen loop iteration"]
 ASSUMPTIONS = ["actors end when cancelled (no thread/process-pool actors)"]
 
